@@ -420,6 +420,61 @@ def worker_dups(rec, shard, nshards, setups, thorough, seed):
                 rec.sample({"schema": st.label, "G": repr(G), "siblings": repr(sibs)})
 
 
+def worker_value_twins(rec, shard, nshards, setups, seed):
+    """Two copies of a value / extension tag whose *values* differ in letter case only, plus 0-1 other tags: whether that
+    counts as a repetition is not asked - only that the answer is the same for every spelling of the two *names* and every
+    order of the members (pure differential)."""
+    for st in setups:
+        subjects = []
+        if st.text_tag is not None:
+            subjects.append((st.text_tag, "/Abc", "/abc"))
+            subjects.append((st.text_tag, "/Abc", "/ABC"))
+        if st.ext_tag is not None:
+            subjects.append((st.ext_tag, "/Zzqext", "/zzqEXT"))
+        between = [None]
+        if st.text_tag is not None:
+            between.append(Leaf(st.text_tag, "/B"))       # sorts between 'Abc' and 'abc' when case matters
+        if st.ext_tag is not None:
+            between.append(Leaf(st.ext_tag, "/a"))
+        between.append(Leaf(st.plain3[0]))
+        cases = [(t, a, b, o) for (t, a, b) in subjects for o in between]
+        for ci in core.shard_order(len(cases), shard, nshards, seed):
+            t, va, vb, other = cases[ci]
+            forms = ["short", "long"] + list(range(1, len(t.terms()) - 1))
+            spell = []
+            for f in forms:
+                for case in (None, "lower", "upper"):
+                    sp = Leaf(t).text(f, case)
+                    if sp not in spell:
+                        spell.append(sp)
+            for nested in (False, True):
+                base_codes = None
+                base_text = None
+                for sa in spell:
+                    for sb in spell:
+                        items = [sa + va, sb + vb] + ([other.text()] if other is not None else [])
+                        for perm in itertools.permutations(items):
+                            text = ", ".join(perm)
+                            if nested:
+                                text = f"{st.plain3[3].name}, ({text})"
+                            rec.n("evaluations")
+                            rec.n("transitions")
+                            rec.n("distinct_nontrivial")
+                            try:
+                                got = codes_of(st, text)
+                            except Exception as e:
+                                rec.violation("C04:raises:" + type(e).__name__, schema=st.label, text=text, error=repr(e)[:200])
+                                continue
+                            if base_codes is None:
+                                base_codes, base_text = got, text
+                                rec.state((st.label, "value-twin", t.name, va, vb, other is not None, nested))
+                            elif got != base_codes:
+                                rec.violation(fingerprint("value-twin:" + ("order" if sorted(perm) == sorted(base_text.replace("(", "").replace(")", "").split(", ")[-len(perm):]) else "spelling"),
+                                                          base_codes, got), schema=st.label, original=base_text, rewrite=text,
+                                              codes_original=base_codes, codes_rewrite=got)
+                rec.outcome("value-twin:" + ("+".join(sorted(set(base_codes))) if base_codes else "clean"))
+
+
 def dup_fingerprint(G, base, got):
     kind = "tag" if isinstance(G, Leaf) else "group"
     if isinstance(G, Leaf) and G.suffix:
@@ -445,6 +500,7 @@ def run(ctx):
         ctx.parallel(worker_trees, setups[1:], (3, 2, 3), ctx.seed)
     ctx.parallel(worker_dups, setups, ctx.thorough, ctx.seed)
     ctx.parallel(worker_reserved, setups, ctx.thorough, ctx.seed)
+    ctx.parallel(worker_value_twins, setups, ctx.seed)
     ctx.parallel(worker_malformed, setups, ctx.pick((2, 2, 2), (3, 2, 2)), ctx.seed)
     ctx.rec.counts["states"] = len(ctx.rec.states)
 
